@@ -117,7 +117,10 @@ def per_sample(B, G, kind, n, h, a, strings, outcomes=None):
     samples = C.rows_tensor(B, [row])
     g = st.gradient(samples) if kind == "positive" else st.gradient(samples, bases=np.array([basis]))
     L, dref = derivatives(B, lambda: O.log(ptilde(row, basis)), params, arrays)
-    G.twin("twin_sign", B.scalars(g[0]).reshape(-1)[0], dref[0])
+    # a hidden-bias entry: its gradient -sigmoid(...) never vanishes identically (weight entries do for rows with a 0 bit)
+    names = [nm for nm, _ in st.rbm_am.named_parameters()]
+    kk = sum(int(np.prod(np.shape(a_))) for nm, a_ in zip(names, arrays) if names.index(nm) < names.index("hidden_bias"))
+    G.twin("twin_sign", B.scalars(g[0]).reshape(-1)[kk], dref[kk])
 
 
 def batch(B, G, kind, n, h, a, data, bases):
